@@ -323,7 +323,7 @@ class World:
         dt = object if ctx.symbolic else (complex if self.cplx else float)
         A = N.Array(legs, dtype=dt, qtotal=qt, labels=labels)
         rng = self.rng('st:' + name)
-        data, qd = [], []
+        data, qd, dropped = [], [], []
         for qi in A._iter_all_blocks():
             if not Bd.block_allowed(ctx, legs, qi, A.qtotal, ch):
                 continue
@@ -333,11 +333,17 @@ class World:
                 continue
             if subset == 'choose' and not ctx.flag('st_' + tag):
                 continue
-            if subset == 'draw' and drop:
-                continue
             shape = tuple(int(l.slices[k + 1] - l.slices[k]) for l, k in zip(legs, qi))
             if 0 in shape and not self.struct.get('store_empty'):
                 continue  # blocks with a zero dimension are stored only in the designated structures
+            if subset == 'draw' and drop:
+                dropped.append((qi, tag, shape))
+                continue
+            data.append(ctx.array(tag, shape, cplx=self.cplx))
+            qd.append(qi)
+        if subset == 'draw' and not any(t.size for t in data) and dropped:
+            # a drawn subset never leaves the tensor without entries (tensors without blocks have their own cases)
+            qi, tag, shape = next((d for d in dropped if 0 not in d[2]), dropped[0])
             data.append(ctx.array(tag, shape, cplx=self.cplx))
             qd.append(qi)
         n = len(qd)
@@ -2065,6 +2071,18 @@ def consumers(ctx, W, R, tag, which=('add', 'radd', 'tensordot', 'inner', 'sort_
     r = R.rank
     ch = R.chinfo
     Wz = World(ctx, dict(W.struct, mods=[int(m) for m in ch.mod]), cplx=W.cplx, subset='all', ns=W.ns + 'z')
+    # one consumer per path (symbolic selector): the forks of the consumers add up instead of multiplying
+    which = (which[ctx.choice(W.ns + 'consumer', len(which))], )
+
+    def vec_for(leg, name):
+        """vector contractible with `leg` whose first non-empty block is allowed (qtotal derived, not a new symbol)"""
+        lc = leg.conj()
+        q = None
+        for b in range(lc.block_number):
+            if int(lc.slices[b + 1] - lc.slices[b]) > 0:
+                q = ch.make_valid(np.array(lc.charges[b] * lc.qconj))
+                break
+        return Wz.tensor(name, [lc], labels=['zz'], qtotal=q if q is not None else 'zero')
 
     def guard(name, f):
         if has_empty_block(R):
@@ -2085,11 +2103,11 @@ def consumers(ctx, W, R, tag, which=('add', 'radd', 'tensordot', 'inner', 'sort_
         if 'radd' in which:
             guard('F +', lambda: ctx.prove_eq((F + R).to_ndarray(), dF + dR, f'{tag} then F + R: dense == numpy'))
     if 'tensordot' in which and r >= 2:
-        G = Wz.tensor('g', [R.legs[0].conj()], labels=['zz'])
+        G = vec_for(R.legs[0], 'g')
         dG = np.array(G.to_ndarray())
         guard('tensordot', lambda: ctx.prove_eq(N.tensordot(G, R, axes=1).to_ndarray(), np.tensordot(dG, dR, axes=1),
                                                 f'{tag} then tensordot(G, R): dense == numpy'))
-        G2 = Wz.tensor('h', [R.legs[-1].conj()], labels=['zz'])
+        G2 = vec_for(R.legs[-1], 'h')
         dG2 = np.array(G2.to_ndarray())
         guard('tensordot', lambda: ctx.prove_eq(N.tensordot(R, G2, axes=1).to_ndarray(), np.tensordot(dR, dG2, axes=1),
                                                 f'{tag} then tensordot(R, G): dense == numpy'))
@@ -2203,7 +2221,7 @@ def compare_array(ctx, snap, tag):
     return bool(ctx.prove_eq(a.to_ndarray(), snap['dense'], f'{tag}: values unchanged')) and bool(ok)
 
 
-def _first_positions(ctx, R, W):
+def _first_positions(ctx, R, W, want_outside=True):
     """(position inside a stored block, position inside an allowed block that is not stored) or None"""
     stored = {tuple(int(x) for x in row) for row in R._qdata}
     inside = None
@@ -2213,7 +2231,7 @@ def _first_positions(ctx, R, W):
             break
     outside = None
     ch = R.chinfo
-    for qi in itertools.product(*[range(l.block_number) for l in R.legs]):
+    for qi in (itertools.product(*[range(l.block_number) for l in R.legs]) if want_outside else ()):
         if qi in stored or any(int(l.slices[k + 1] - l.slices[k]) == 0 for l, k in zip(R.legs, qi)):
             continue
         q = sum(l.charges[k] * l.qconj for l, k in zip(R.legs, qi))
@@ -2227,9 +2245,17 @@ WRITES = ('setitem_stored', 'setitem_new', 'setitem_slice', 'iscale_prefactor', 
           'labels', 'iproject', 'iadd')
 
 
-def write_through(ctx, W, R, tag, check, writes=WRITES):
-    """in-place operations on R; after each one `check(what)` re-compares every other live object"""
-    inside, outside = _first_positions(ctx, R, W)
+NONFORKING_WRITES = ('setitem_stored', 'iscale_prefactor', 'iscale_axis', 'itranspose', 'iswapaxes', 'iconj', 'labels', 'iadd')
+FORKING_WRITES = ('setitem_new', 'setitem_slice', 'iproject')  # these branch on the (symbolic) charges
+
+
+def write_through(ctx, W, R, tag, check, writes=WRITES, groups=4):
+    """in-place operations on R; after each one `check(what)` re-compares every other live object.
+    A symbolic selector picks either the sequence of writes that do not branch on charges or one of the branching
+    writes, so that their forks add up instead of multiplying (groups: how many of the alternatives are explored)."""
+    k = ctx.choice(W.ns + 'write', min(groups, 1 + len(FORKING_WRITES)))
+    writes = [w for w in writes if w in NONFORKING_WRITES] if k == 0 else [FORKING_WRITES[k - 1]]
+    inside, outside = (_first_positions(ctx, R, W, want_outside=(k == 1)) if k in (0, 1) else (None, None))
     r = R.rank
 
     def idx(p):
